@@ -532,6 +532,8 @@ type c07pGen struct {
 	gpuMem []int64 // memory size of GPU minor m (the same machine model on both nodes)
 	active string  // the pod whose scheduling cycle is in progress (the scheduler runs one scheduling cycle at a time)
 	since  int     // events since the active cycle's last Filter (steering: events between Filter and Reserve)
+	sweep  string  // the node whose pods a what-if is removing one after the other (as the preemption dry-run does)
+	left   int
 }
 
 func (g *c07pGen) devRes(t string, m int) map[string]int64 {
@@ -622,11 +624,8 @@ func (g *c07pGen) begin(pod string) c07Op {
 			amt = map[string]int64{t: 100}
 		}
 		o.Reqs[t] = c07Req{Req: amt, Cnt: cnt}
-		n := cnt
-		if g.rng.Intn(5) == 0 && n < g.nminor {
-			n++ // more designated devices than asked for: any cnt of them
-		}
-		for _, m := range g.rng.Perm(g.nminor)[:n] {
+		// (the annotation is a recorded allocation: exactly one entry per device asked for)
+		for _, m := range g.rng.Perm(g.nminor)[:cnt] {
 			res := map[string]int64{}
 			for k, v := range amt {
 				res[k] = v
@@ -765,6 +764,19 @@ func (g *c07pGen) cycleOp() c07Op {
 			unfiltered = append(unfiltered, n)
 		}
 	}
+	if g.left > 0 { // the dry-run goes on removing the pods of the node
+		g.left--
+		var cand []string
+		for _, v := range g.holders(g.sweep, pod) {
+			if !c.removed[g.sweep][v] {
+				cand = append(cand, v)
+			}
+		}
+		if len(cand) > 0 {
+			return c07Op{Op: "whatifRemove", Pod: pod, Node: g.sweep, Victim: cand[g.rng.Intn(len(cand))]}
+		}
+		g.left = 0
+	}
 	k := g.rng.Intn(100)
 	switch {
 	case k < 14 || (len(c.passed) > 0 && g.since == 0 && k < 40): // informer events, often right between Filter and Reserve
@@ -787,6 +799,9 @@ func (g *c07pGen) cycleOp() c07Op {
 		j := g.rng.Intn(10)
 		switch {
 		case len(cand) > 0 && (j < 6 || len(back) == 0):
+			if len(cand) > 1 && g.rng.Intn(2) == 0 {
+				g.sweep, g.left = node, len(cand)-1
+			}
 			return c07Op{Op: "whatifRemove", Pod: pod, Node: node, Victim: cand[g.rng.Intn(len(cand))]}
 		case len(back) > 0 && j < 8:
 			return c07Op{Op: "whatifAdd", Pod: pod, Node: node, Victim: back[g.rng.Intn(len(back))]}
@@ -844,7 +859,7 @@ func (g *c07pGen) next() c07Op {
 			return g.envOp()
 		}
 		g.active = idle[g.rng.Intn(len(idle))]
-		g.since = 0
+		g.since, g.left = 0, 0
 		return g.begin(g.active)
 	default:
 		return g.envOp()
@@ -934,6 +949,9 @@ func c07pDesignatedFamily(rec *vu.Recorder, stats map[string]int) {
 	n := 0
 	for _, t := range []string{"gpu", "rdma"} {
 		for _, amt := range []int64{100, 50} {
+			if t == "rdma" && amt != 100 {
+				continue
+			}
 			for _, busy1 := range []int64{0, 50, 100} {
 				for _, busy2 := range []int64{0, 50, 100} {
 					for _, order := range [][]string{{"n1", "n2"}, {"n2", "n1"}, {"n1"}, {"n2"}} {
@@ -976,7 +994,7 @@ func c07pDesignatedFamily(rec *vu.Recorder, stats map[string]int) {
 									h.do(c07pInv(node, t, 2, mem, 0))
 								case "freed":
 									if busy[node] > 0 {
-										h.do(c07Op{Op: "delete", Pod: fmt.Sprintf("p%d", 1+indexOf(c07pNodes, node))})
+										h.do(c07Op{Op: "delete", Pod: fmt.Sprintf("p%d", 1+c07pIndexOf(c07pNodes, node))})
 									}
 								}
 								if c07pOK(h.do(c07Op{Op: "reserve", Pod: "p0", Node: node})) {
@@ -997,7 +1015,7 @@ func c07pDesignatedFamily(rec *vu.Recorder, stats map[string]int) {
 	}
 }
 
-func indexOf(l []string, s string) int {
+func c07pIndexOf(l []string, s string) int {
 	for i, x := range l {
 		if x == s {
 			return i
@@ -1017,7 +1035,7 @@ func c07pWhatIfFamily(rec *vu.Recorder, stats map[string]int) {
 			for _, perm := range perms {
 				for _, cnt := range []int{1, 2} {
 					h := c07pNewHist(rec, stats)
-					h.do(c07pInv("n1", t, 3, mem, -1))
+					h.do(c07pInv("n1", t, 1+cnt, mem, -1)) // cnt whole devices fit only if the what-if removals were real
 					h.do(c07pInv("n2", t, 1, mem, -1))
 					victims := []string{"p1", "p2", "p3"}
 					for i, v := range victims {
@@ -1086,7 +1104,7 @@ func TestVerifC07Plugin(t *testing.T) {
 	enumerated := rec.Segments()
 	n, length := 220, 45
 	if vu.Thorough() {
-		n, length = 3000, 70
+		n, length = 1500, 60
 	}
 	n = vu.EnvInt("VERIF_C07P_N", n)
 	rng := vu.Rand(77)
